@@ -17,8 +17,11 @@ def harnesses(tier):
             scenario_harness("flat-window", Profile(
                 templates=("F3",), raises="free", crit_job="free", window="free", perm="two", top="pure"),
                 o, required_notes=req + ("c05_queued_siblings",)),
-            scenario_harness("flat-yields-lat", Profile(
-                templates=("F3",), raises="free", crit_job="free", post=1, lat="free", sd="free", sdt="free",
+            scenario_harness("flat-yields", Profile(
+                templates=("F3",), raises="free", crit_job="free", post=1, perm="id", top="pure", edges="none"),
+                o, required_notes=req),
+            scenario_harness("flat2-lat-sd", Profile(
+                templates=("F2",), raises="free", crit_job="free", lat="free", sd="free", sdt="free",
                 perm="id", top="pure", edges="none"), o, required_notes=req),
             scenario_harness("nested", Profile(
                 templates=("N12",), raises="free", crit_job="free", crit_sched="free", perm="id"),
